@@ -36,10 +36,11 @@ I2 == IntV(2)
 PoolQuick == {
     IntV(1), IntV(5), IntV(-3), Flt(1, 1), Rat(1, 2), Str(<<"a", "b">>), Null,
     List(<<>>), List(<<I1>>), List(<<I1, I2>>), List(<<IntV(5), I2>>), List(<<I1, I2, IntV(3)>>),
+    List(<<I1, I2, IntV(3), IntV(4)>>),
     List(<<List(<<I1, I2>>), IntV(3)>>), List(<<I1, Str(<<"x">>)>>),
     Vec(<<I1, I2>>), Inst("Foo", <<I1, I2>>), Inst("Bar", <<I1>>)}
 PoolWide == PoolQuick \cup {
-    IntV(0), IntV(6), Flt(3, 2), Str(<<>>), Str(<<"a">>), List(<<Str(<<"a">>), I1>>), List(<<I1, I2, IntV(3), IntV(4)>>),
+    IntV(0), IntV(6), Flt(3, 2), Str(<<>>), Str(<<"a">>), List(<<Str(<<"a">>), I1>>), List(<<I1, I2, IntV(3), IntV(4), IntV(5)>>),
     Dict(<<I1>>, <<I2>>), Bytes(<<97, 98>>), Stream(<<I1, I2>>), Func("len"), TypeV("int"),
     Inst("Foo", <<List(<<I1, I2>>), Str(<<"a">>)>>), Cpx(1, 1)}
 Pool == IF Wide THEN PoolWide ELSE PoolQuick
@@ -70,13 +71,45 @@ Splats(q) ==
     \cup {PSeq(<<s, t>>, FALSE) : s \in Sp(q \o "1"), t \in Sp(q \o "2")}              \* two splats: never matches
 D7 == IntV(7)
 D8 == IntV(8)
+\* defaulted items on either side of a splat (the boundary lengths are where "which defaults are in
+\* play" matters), alone, typed, [..]-delimited, and inside struct patterns
+Dq(q, dv) == PDflt(V(q), dv)
 Defaults(q) ==
-    {PSeq(<<PDflt(V(q \o "1"), D7)>>, FALSE),
-     PSeq(<<V(q \o "1"), PDflt(V(q \o "2"), D7)>>, FALSE),
-     PSeq(<<V(q \o "1"), PDflt(V(q \o "2"), D7), PDflt(V(q \o "3"), D8)>>, FALSE),
-     PSeq(<<PDflt(V(q \o "1"), D7), PDflt(V(q \o "2"), D8)>>, FALSE),
-     PSeq(<<V(q \o "1"), PDflt(V(q \o "2"), D7), PSplat(V(q \o "3"))>>, FALSE),
-     PSeq(<<V(q \o "1"), PDflt(PAnn(V(q \o "2"), TBuiltin("int")), D7)>>, FALSE)}
+    {PSeq(<<Dq(q \o "1", D7)>>, FALSE),
+     PSeq(<<V(q \o "1"), Dq(q \o "2", D7)>>, FALSE),
+     PSeq(<<V(q \o "1"), Dq(q \o "2", D7)>>, TRUE),
+     PSeq(<<V(q \o "1"), Dq(q \o "2", D7), Dq(q \o "3", D8)>>, FALSE),
+     PSeq(<<Dq(q \o "1", D7), Dq(q \o "2", D8)>>, FALSE),
+     PSeq(<<V(q \o "1"), PDflt(PAnn(V(q \o "2"), TBuiltin("int")), D7)>>, FALSE),
+     PSeq(<<V(q \o "1"), PDflt(PAnn(V(q \o "2"), TBuiltin("str")), D7)>>, FALSE),   \* the default is not a str
+     PSeq(<<Dq(q \o "1", D7), V(q \o "2")>>, FALSE),                                  \* no-default after default
+     \* splat after the defaults
+     PSeq(<<V(q \o "1"), Dq(q \o "2", D7), PSplat(V(q \o "3"))>>, FALSE),
+     PSeq(<<Dq(q \o "1", D7), PSplat(V(q \o "2"))>>, FALSE),
+     PSeq(<<Dq(q \o "1", D7), Dq(q \o "2", D8), PSplat(V(q \o "3"))>>, FALSE),
+     \* splat before the defaults
+     PSeq(<<PSplat(V(q \o "1")), Dq(q \o "2", D7)>>, FALSE),
+     PSeq(<<PSplat(V(q \o "1")), Dq(q \o "2", D7)>>, TRUE),
+     PSeq(<<V(q \o "1"), PSplat(V(q \o "2")), Dq(q \o "3", D7)>>, FALSE),
+     PSeq(<<V(q \o "1"), PSplat(PWild), Dq(q \o "3", D7)>>, FALSE),
+     PSeq(<<PSplat(V(q \o "1")), Dq(q \o "2", D7), Dq(q \o "3", D8)>>, FALSE),
+     PSeq(<<V(q \o "1"), PSplat(V(q \o "2")), Dq(q \o "3", D7), Dq(q \o "4", D8)>>, FALSE),
+     PSeq(<<PSplat(V(q \o "1")), V(q \o "2"), Dq(q \o "3", D7)>>, FALSE),
+     PSeq(<<V(q \o "1"), PSplat(V(q \o "2")), V(q \o "3"), Dq(q \o "4", D7)>>, FALSE),
+     PSeq(<<V(q \o "1"), PSplat(V(q \o "2")), PDflt(PAnn(V(q \o "3"), TBuiltin("int")), D7)>>, FALSE),
+     \* splat between defaults / before a plain item
+     PSeq(<<Dq(q \o "1", D7), PSplat(V(q \o "2")), Dq(q \o "3", D8)>>, FALSE),
+     PSeq(<<Dq(q \o "1", D7), PSplat(V(q \o "2")), V(q \o "3")>>, FALSE),
+     PSeq(<<V(q \o "1"), Dq(q \o "2", D7), PSplat(V(q \o "3")), Dq(q \o "4", D8)>>, FALSE),
+     PSeq(<<V(q \o "1"), Dq(q \o "2", D7), PSplat(V(q \o "3")), V(q \o "4")>>, FALSE),
+     \* the same rule inside struct patterns, and one level down
+     PStruct("Foo", <<V(q \o "1"), V(q \o "2"), Dq(q \o "3", D7)>>),
+     PStruct("Foo", <<V(q \o "1"), Dq(q \o "2", D7)>>),
+     PStruct("Bar", <<V(q \o "1"), Dq(q \o "2", D7)>>),
+     PStruct("Bar", <<PSplat(V(q \o "1")), Dq(q \o "2", D7)>>),
+     PStruct("Foo", <<V(q \o "1"), PSplat(V(q \o "2")), Dq(q \o "3", D7)>>),
+     PSeq(<<V(q \o "1"), PSeq(<<V(q \o "21"), PSplat(V(q \o "22")), Dq(q \o "23", D7)>>, FALSE)>>, FALSE),
+     PSeq(<<PSeq(<<PSplat(V(q \o "11")), Dq(q \o "12", D7)>>, TRUE), V(q \o "2")>>, FALSE)}
 Ors(q) ==
     {POr(a, b) : a \in Small(q), b \in Small(q)}
     \cup {POr(PSeq(<<a, b>>, FALSE), PSeq(<<c, d>>, FALSE)) :
